@@ -711,6 +711,17 @@ def apply_rules(text, rules, ctx, counts, where):
             text, n = fn(text, ctx, where)
             counts["for_consume"] = counts.get("for_consume", 0) + n
             continue
+        if isinstance(r, tuple) and r[0] == "consume_into":
+            # `for X in V {` where V is an owned Vec local -> drain from the front
+            n = 0
+            for v in r[1]:
+                m = mask(text)
+                mt = re.search(r"\bfor\s+([A-Za-z_]\w*)\s+in\s+" + re.escape(v) + r"\s*\{", m)
+                if mt:
+                    text = text[:mt.start()] + f"let mut __iv{n} = {v}; while __iv{n}.len() > 0 {{ let {mt.group(1)} = __iv{n}.remove(0);" + text[mt.end():]
+                    n += 1
+            counts["for_consume"] = counts.get("for_consume", 0) + n
+            continue
         if isinstance(r, tuple) and r[0] == "cell":
             ctx.cell_fields = list(r[1])
             fn = rule_cell
